@@ -272,7 +272,7 @@ def _loop(lp, S, P, f):
     S.events.append(("loop", lp, info))
 
 
-def check(run, P):
+def _check_main(run, P):
     run.rule("C02.raw_waw", "depends_on contains the last writer of every variable "
              "in R u C u {exec} u W (plus all persistent names seen, for "
              "non-assignments, which also write {exec})", minimum=6)
@@ -635,3 +635,9 @@ def _fresh(run, P):
     run.ob("C02.fresh", f, site, ok_add,
            construct="self._seen_var_names.add(name) before returning it",
            why="the same name could be handed out twice")
+
+
+def check(run, P):
+    _check_main(run, P)
+    from . import generic
+    generic.lints(run, P, "C02")
